@@ -362,6 +362,14 @@ class SDict(Sym):
             m.add(id(self))
 
     def contains(self, it, x):
+        if isinstance(self.kelem, (StrElem, IntElem)):
+            try:
+                kt = self.kelem.unwrap(x)
+            except Exception:
+                return False
+            if not z3.is_expr(kt) or kt.sort() != self.kelem.sort:
+                return False
+            return lift(z3.Select(self.dom, kt))
         if not (isinstance(x, SOpq) and x.kind == self.kelem.kind):
             return False
         return lift(z3.Select(self.dom, x.t))
@@ -519,6 +527,24 @@ class IntElem(Elem):
 
     def unwrap(self, v):
         return to_z3(v)
+
+
+class StrElem(Elem):
+    """string-keyed symbolic dicts / sets: elements are SStr (or Python str constants)"""
+
+    def __init__(self):
+        super().__init__(z3.StringSort(), "str")
+
+    def wrap(self, t):
+        return lift(t)
+
+    def unwrap(self, v):
+        if isinstance(v, str):
+            return z3.StringVal(v)
+        t = to_z3(v)
+        if t.sort() != z3.StringSort():
+            raise Unsupported(f"expected a string, got {v!r}")
+        return t
 
 
 def SRange(it, *a):
